@@ -1,0 +1,106 @@
+//go:build verif
+
+package plugins
+
+import (
+	"fmt"
+
+	"google.golang.org/protobuf/proto"
+
+	"github.com/cube2222/octosql/execution"
+	"github.com/cube2222/octosql/octosql"
+	"github.com/cube2222/octosql/physical"
+	"github.com/cube2222/octosql/plugins/internal/plugins"
+)
+
+// Verification hook H5 (build tag verif): the plugin wire conversions of the
+// internal package, each with a real proto.Marshal / proto.Unmarshal in the
+// middle, embedded in the message that carries them over gRPC. Nothing here is
+// compiled without the tag.
+
+func verifHop(in, out proto.Message) error {
+	data, err := proto.Marshal(in)
+	if err != nil {
+		return fmt.Errorf("marshal: %w", err)
+	}
+	if err := proto.Unmarshal(data, out); err != nil {
+		return fmt.Errorf("unmarshal: %w", err)
+	}
+	return nil
+}
+
+// VerifWireValue: octosql.Value -> proto -> bytes -> proto -> octosql.Value (as a one-value record).
+func VerifWireValue(v octosql.Value) (octosql.Value, error) {
+	var out plugins.Value
+	if err := verifHop(plugins.NativeValueToProto(v), &out); err != nil {
+		return octosql.Value{}, err
+	}
+	return out.ToNativeValue(), nil
+}
+
+// VerifWireType: octosql.Type through the wire.
+func VerifWireType(t octosql.Type) (octosql.Type, error) {
+	var out plugins.Type
+	if err := verifHop(plugins.NativeTypeToProto(t), &out); err != nil {
+		return octosql.Type{}, err
+	}
+	return out.ToNativeType(), nil
+}
+
+// VerifWireSchema: physical.Schema as carried by GetTableResponse.
+func VerifWireSchema(s physical.Schema) (physical.Schema, error) {
+	var out plugins.GetTableResponse
+	if err := verifHop(&plugins.GetTableResponse{Schema: plugins.NativeSchemaToProto(s)}, &out); err != nil {
+		return physical.Schema{}, err
+	}
+	return out.Schema.ToNativeSchema(), nil
+}
+
+// VerifWireRecord: execution.Record as carried by RunResponseMessage; the receiving side
+// decides record/metadata the way executor.ExecutionDatasource.Run does.
+func VerifWireRecord(r execution.Record) (execution.Record, error) {
+	var out plugins.RunResponseMessage
+	if err := verifHop(&plugins.RunResponseMessage{Record: plugins.NativeRecordToProto(r)}, &out); err != nil {
+		return execution.Record{}, err
+	}
+	if out.Record == nil {
+		return execution.Record{}, fmt.Errorf("record arrived as a metadata message")
+	}
+	return out.Record.ToNativeRecord(), nil
+}
+
+// VerifWireMetadataMessage: execution.MetadataMessage as carried by RunResponseMessage.
+func VerifWireMetadataMessage(m execution.MetadataMessage) (execution.MetadataMessage, error) {
+	var out plugins.RunResponseMessage
+	if err := verifHop(&plugins.RunResponseMessage{Metadata: plugins.NativeMetadataMessageToProto(m)}, &out); err != nil {
+		return execution.MetadataMessage{}, err
+	}
+	if out.Record != nil {
+		return execution.MetadataMessage{}, fmt.Errorf("metadata message arrived as a record")
+	}
+	return out.Metadata.ToNativeMetadataMessage(), nil
+}
+
+// VerifWirePhysicalVariableContext: as carried by MaterializeRequest.
+func VerifWirePhysicalVariableContext(c *physical.VariableContext) (*physical.VariableContext, error) {
+	var out plugins.MaterializeRequest
+	if err := verifHop(&plugins.MaterializeRequest{VariableContext: plugins.NativePhysicalVariableContextToProto(c)}, &out); err != nil {
+		return nil, err
+	}
+	return out.VariableContext.ToNativePhysicalVariableContext(), nil
+}
+
+// VerifWireExecutionVariableContext: as carried by RunRequest.
+func VerifWireExecutionVariableContext(c *execution.VariableContext) (*execution.VariableContext, error) {
+	var out plugins.RunRequest
+	if err := verifHop(&plugins.RunRequest{VariableContext: plugins.NativeExecutionVariableContextToProto(c)}, &out); err != nil {
+		return nil, err
+	}
+	return out.VariableContext.ToNativeExecutionVariableContext(), nil
+}
+
+// VerifRepopulatePhysicalExpressionFunctions: the function both sides of the plugin boundary
+// call on a physical.Expression that arrived as JSON.
+func VerifRepopulatePhysicalExpressionFunctions(expr physical.Expression) (physical.Expression, bool) {
+	return plugins.RepopulatePhysicalExpressionFunctions(expr)
+}
